@@ -154,30 +154,24 @@ fn c13_historical() {
     let mut new = fresh_quote(1, XorName([1; 32]), t_new);
     old.quoting_metrics.live_time = 100;
     old.quoting_metrics.received_payment_count = 5;
-    let which = choice(3);
-    match which {
-        0 => {
-            new.quoting_metrics.live_time = 99; // less uptime than the earlier quote
-            new.quoting_metrics.received_payment_count = 5;
-        }
-        1 => {
-            new.quoting_metrics.live_time = 100;
-            new.quoting_metrics.received_payment_count = 4; // fewer payments
-        }
-        _ => {
-            new.quoting_metrics.live_time = 100;
-            new.quoting_metrics.received_payment_count = 5;
-        }
-    }
+    // the later quote's figures relative to the earlier one (100 s uptime, 5 payments): each lower, equal or higher
+    let lt = [99u64, 100, 101][choice(3)];
+    let pc = [4usize, 5, 6][choice(3)];
+    new.quoting_metrics.live_time = lt;
+    new.quoting_metrics.received_payment_count = pc;
+    let which = if lt < 100 { 0 } else if pc < 5 { 1 } else if lt == 100 && pc == 5 { 2 } else { 3 };
     // either argument order must give the same verdict
     let swap = choice(2) == 1;
     let verdict = if swap { new.historical_verify(&old) } else { old.historical_verify(&new) };
-    note(format!("case={} swapped={swap}", ["less uptime", "fewer payments", "consistent"][which]));
+    note(format!("later quote: live_time={lt} received_payment_count={pc} ({}) swapped={swap}", ["less uptime", "fewer payments", "same figures", "grown figures"][which]));
     if which < 2 {
         cover("inconsistent");
         check_bool("historical:later_quote_with_less_uptime_or_payments_is_flagged", !verdict);
-    } else {
+    } else if which == 2 {
         cover("consistent");
         check_bool("historical:consistent_quotes_accepted", verdict);
+    } else {
+        // grown figures: whether the growth is plausible against the elapsed time is the drift rule's call
+        cover("grown");
     }
 }
